@@ -156,6 +156,7 @@ struct ExecInfo {
 
 // Fam requirements:  using SK;  static const char* name();  static SK make(int cfg);  static std::string cfg_text(int);
 //                    static SK roundtrip(const SK&);  static bool allow_rt();
+//                    static bool exact_claim(const SK&, double true_rank);  (true iff the sketch itself publishes zero error at that rank)
 template<typename Fam>
 std::unique_ptr<typename Fam::SK> execute(const Scenario& sc, ExecInfo& info) {
   typedef typename Fam::SK SK;
@@ -228,6 +229,12 @@ void run_exhaustive(const Scenario& sc, unsigned f_expected) {
   Script script;
   bool aborted = false;
   uint64_t sigacc = mix64(n, f);
+  // exact-region clause applies when all sketches of the scenario share one configuration (a merge of different k
+  // brings in items protected only by the smaller k)
+  bool exact_applicable = Fam::has_exact_region();
+  for (int cfg : sc.cfg) if (cfg != sc.cfg[0]) exact_applicable = false;
+  bool exact_set = false; uint64_t exact_asserts = 0;
+  std::vector<std::pair<size_t, int>> exact_q;
   for (uint64_t o = 0; o < outcomes && !aborted; ++o) {
     install_script(script, o);
     ExecInfo info;
@@ -289,6 +296,31 @@ void run_exhaustive(const Scenario& sc, unsigned f_expected) {
       checked(2 * nd);
       count(fam + "_exh_rank_crosschecks", 2 * nd);
     }
+    // (4) deterministic exact-region clause: wherever the sketch itself publishes zero error at the TRUE rank of a
+    // stream value (REQ: lb == ub within 3k/n of the accurate end), the estimate must be that rank in EVERY outcome.
+    // The set of such (value, criterion) pairs is a function of (k, n, number of levels) and so the same in every outcome.
+    if (exact_applicable) {
+      if (!exact_set) {
+        for (size_t q = 0; q < nd; ++q) for (int incl = 0; incl < 2; ++incl) {
+          const double tr = static_cast<double>(incl ? atmost[q] : below[q]) / static_cast<double>(n);
+          if (Fam::exact_claim(*root, tr)) exact_q.push_back(std::make_pair(q, incl));
+        }
+        exact_set = true;
+        if (root->is_estimation_mode()) count(fam + "_exh_exact_pairs_estimation_mode", exact_q.size());
+      }
+      for (const auto& e : exact_q) {
+        const double tr = static_cast<double>(e.second ? atmost[e.first] : below[e.first]) / static_cast<double>(n);
+        const double est = root->get_rank(dv[e.first], e.second == 1);
+        if (std::fabs(est - tr) > 1e-12) {
+          fail(kp + "rank-not-exact-where-zero-error-is-published", ctx + " outcome=" + std::to_string(o) + " v=" + str(dv[e.first]) + (e.second ? " inclusive" : " exclusive") +
+               " true_rank=" + str(tr) + " (" + std::to_string(e.second ? atmost[e.first] : below[e.first]) + "/" + std::to_string(n) + ") get_rank=" + str(est) +
+               " (" + str(est * static_cast<double>(n)) + "/" + std::to_string(n) + ") program=" + program_text(sc));
+          break;
+        }
+      }
+      checked(exact_q.size());
+      exact_asserts += exact_q.size();
+    }
     if (o == 0 || o + 1 == outcomes) sigacc = mix64(sigacc, mix64(root->get_num_retained(), w_in[nd / 2]));
     if (o == 0) {
       count(fam + "_exh_flips_in_merges", info.flips_in_merges);
@@ -318,6 +350,7 @@ void run_exhaustive(const Scenario& sc, unsigned f_expected) {
          " program=" + program_text(sc));
   }
   count(fam + "_exh_scenarios");
+  if (exact_asserts) { count(fam + "_exh_exact_asserts", exact_asserts); count(fam + "_exh_scen_with_exact_region_clause"); }
   count(fam + "_exh_outcomes_enumerated", outcomes);
   count(fam + "_exh_values_checked", nd);
   if (f >= 10) count(fam + "_exh_scen_f_ge_10");
